@@ -239,6 +239,10 @@ type CaseC15 struct {
 	Src   SrcDesc `json:"src"`
 	Maps  []Map15 `json:"maps"`
 	Split bool    `json:"split"` // put every mapping into its own AddInput call where the API allows
+	// NDStart / NDP1 (grouped mode): the mappings from that predecessor are declared with
+	// AddInputWithOptions(..., WithNoDirectDependency()) plus a separate AddDependency
+	NDStart bool `json:"ndstart,omitempty"`
+	NDP1    bool `json:"ndp1,omitempty"`
 }
 
 var fromStruct = [][]string{nil, {"A"}, {"B"}, {"In"}, {"In", "S"}, {"In", "N"}, {"PIn"}, {"PIn", "S"}, {"M"}, {"M", "k"}, {"M", "j"}, {"M", "k", "j"}, {"M", "k", "S"}, {"MS"}, {"MS", "k"}, {"Any"}, {"Any", "S"}, {"Any", "k"}, {"L"}, {"Zz"}, {"hidden"}}
@@ -307,6 +311,8 @@ func genC15(t *rapid.T) CaseC15 {
 		c.Maps = []Map15{{Pred: "start", From: leaf("sibFrom1"), To: pair[0]}, {Pred: "start", From: leaf("sibFrom2"), To: pair[1]}}
 	}
 	c.Split = rapid.Bool().Draw(t, "split")
+	c.NDStart = rapid.IntRange(0, 2).Draw(t, "ndStart") == 0
+	c.NDP1 = rapid.IntRange(0, 2).Draw(t, "ndP1") == 0
 	return c
 }
 
@@ -568,10 +574,20 @@ func build15[S, D any](c CaseC15, order []int, srcVal S) *wf15 {
 			}
 		}
 		if len(ms) > 0 {
-			succ.AddInput("start", ms...)
+			if c.NDStart {
+				succ.AddInputWithOptions("start", ms, compose.WithNoDirectDependency())
+				succ.AddDependency("start")
+			} else {
+				succ.AddInput("start", ms...)
+			}
 		}
 		if len(mp) > 0 {
-			succ.AddInput("p1", mp...)
+			if c.NDP1 {
+				succ.AddInputWithOptions("p1", mp, compose.WithNoDirectDependency())
+				succ.AddDependency("p1")
+			} else {
+				succ.AddInput("p1", mp...)
+			}
 		}
 	}
 	_ = usesP1
